@@ -20,9 +20,15 @@
  * New message data begins at \info.done ,
  * encoded data continues \info.scratch later
  * 
- * Pass \sourcelen = 0 to get current message length
- * on single data element.
- * No data change is performed in this case.
+ * Pass \sourcelen = 0 to decode as far as possible on a
+ * single data element without finishing a message.
+ * Blocks that are complete are decoded in place (the decoded
+ * bytes go into the part of the element that was consumed,
+ * never past the read position); \dec.curr, \dec.data.len and
+ * \dec._ctx advance accordingly, so that a later regular call
+ * continues exactly where this one stopped.
+ * Bytes behind the read position and the decoded bytes in front
+ * of \dec.data.pos + \dec.data.len are not changed.
  * 
  * Pass \source = 0 to get maximum required message size
  * for remaining data length.
@@ -50,9 +56,15 @@ extern int mpt_decode_cobs_zpe(MPT_STRUCT(decode_state) *info, const struct iove
  * New message data begins at \info.done ,
  * encoded data continues \info.scratch later
  * 
- * Pass \sourcelen = 0 to get current message length
- * on single data element.
- * No data change is performed in this case.
+ * Pass \sourcelen = 0 to decode as far as possible on a
+ * single data element without finishing a message.
+ * Blocks that are complete are decoded in place (the decoded
+ * bytes go into the part of the element that was consumed,
+ * never past the read position); \dec.curr, \dec.data.len and
+ * \dec._ctx advance accordingly, so that a later regular call
+ * continues exactly where this one stopped.
+ * Bytes behind the read position and the decoded bytes in front
+ * of \dec.data.pos + \dec.data.len are not changed.
  * 
  * Pass \source = 0 to get maximum required message size
  * for remaining data length.
